@@ -497,3 +497,84 @@ func ownerStruct(f *types.Var, p *Prog) *types.Named {
 	}
 	return nil
 }
+
+// ---------------------------------------------------------------------------
+// T-WRAPPER: a type that implements an interface by wrapping another value of
+// that interface (it has a field of the interface type) and adds behaviour
+// (column re-indexing, level handling, reference counting) must survive the
+// interface's self-returning methods: T.method() returns a T again, not the
+// bare result of the wrapped value's method, or the added behaviour is lost
+// for every consumer that slices/clones first.
+
+func wrapperPreservedRule(c *Ctx, rule, ifaceKey, method string, min int) {
+	p := c.P
+	it := p.LookupType(ifaceKey)
+	if !c.Anchor(rule, ifaceKey, it != nil) {
+		return
+	}
+	iface, _ := it.Underlying().(*types.Interface)
+	n := 0
+	for _, t := range p.Implementations(iface) {
+		st := structOf(t)
+		if st == nil {
+			continue
+		}
+		wraps := false
+		for i := 0; i < st.NumFields(); i++ {
+			if types.Identical(st.Field(i).Type(), it) {
+				wraps = true
+			}
+		}
+		if !wraps {
+			continue
+		}
+		m, promoted := MethodOf(t, method)
+		if m == nil {
+			continue
+		}
+		tn := recvString(t)
+		key := tn + "." + method + " returns a " + strings.TrimPrefix(tn, "*")
+		if promoted {
+			n++
+			c.Fail(rule, key, m.Pos(), "%s inherits %s from the value it wraps: the result is the bare wrapped value and the behaviour %s adds is lost", tn, method, tn)
+			continue
+		}
+		fn := p.SSAFunc(m)
+		if fn == nil || fn.Blocks == nil {
+			continue
+		}
+		n++
+		self := namedOf(t)
+		var bad []string
+		for _, ret := range returnsOf(fn) {
+			rv, _ := retResult(ret, 0)
+			if rv == nil {
+				continue
+			}
+			for _, o := range Origins(rv, OriginOpts{}) {
+				ok := false
+				switch o.Kind {
+				case OrgAlloc, OrgParam, OrgField, OrgOther:
+					// the concrete value converted to the interface
+					if nt := namedOf(o.Val.Type()); nt != nil && self != nil && nt.Origin() == self.Origin() {
+						ok = true
+					}
+				case OrgCall:
+					// a constructor of the same type
+					if sig := o.Call.Common().Signature(); sig != nil && sig.Results().Len() > 0 {
+						if nt := namedOf(sig.Results().At(0).Type()); nt != nil && self != nil && nt.Origin() == self.Origin() {
+							ok = true
+						}
+					}
+				}
+				if !ok {
+					bad = append(bad, describeValue(p, o.Val)+" ("+p.Pos(ret.Pos())+")")
+				}
+			}
+		}
+		sort.Strings(bad)
+		c.Check(rule, key, fn.Pos(), len(bad) == 0, tn+"."+method+" returns "+strings.Join(bad, ", ")+" instead of wrapping it again: what "+tn+" adds (column index, levels, reference counts) is lost for the sliced value")
+	}
+	c.Stats[rule+".wrappers"] = n
+	c.Min(rule, min)
+}
